@@ -154,7 +154,7 @@ def main():
     rep = Report(prop)
     findings = {f['id']: f for f in load_findings() if f.get('property') == 'C19' and f.get('status') == 'known'}
     proof_ok, pinfo = coqcheck.proof_status(prop)
-    n = 12000 if thorough else 1500
+    n = 400000 if thorough else 1500
     results = []
     if pinfo.get('build_ok'):
         nproc = min(16, os.cpu_count() or 4)
